@@ -2,6 +2,7 @@ package harness
 
 import (
 	"fmt"
+	"reflect"
 	"sort"
 	"strings"
 	"testing"
@@ -371,7 +372,83 @@ func TestC10Cache(t *testing.T) {
 			tb.Fatalf("harness: %v", err)
 		}
 		if aspect, detail := refmodel.Diff(refmodel.Interpret(rops), incremental); aspect != "" {
-			rep.Fail(tb, "C10/cache/snapshot/"+aspect, detail, c)
+			if rep.Fail(tb, "C10/cache/snapshot/"+aspect, detail, c) {
+				return
+			}
+		}
+		// ---- the state the cache keeps across runs. This run ends normally; the next one edits the bug and is
+		// killed before it closes anything; the third one loads the cache files: what it lists for the bug
+		// (the excerpt) is the compilation of the operations stored in git.
+		if err := w.Reopen(r); err != nil {
+			tb.Fatalf("harness: reopen: %v", err)
+		}
+		user2, err := r.Cache.GetUserIdentity()
+		if err != nil {
+			tb.Fatalf("harness: %v", err)
+		}
+		bc2, err := r.Cache.Bugs().Resolve(bc.Id())
+		if err != nil {
+			rep.Fail(tb, "C10/cache/unresolvable-after-reopen/"+Normalize(err.Error()), err.Error(), c)
+			return
+		}
+		_, e1 := bc2.SetTitleRaw(user2, 9_000_000, "title given by the run that was killed", nil)
+		_, e2 := bc2.CloseRaw(user2, 9_000_001, nil)
+		_, _, e3 := bc2.ChangeLabelsRaw(user2, 9_000_002, []string{"killed-run"}, nil, nil)
+		if e1 != nil || e2 != nil || e3 != nil {
+			tb.Fatalf("harness: late edits: %v %v %v", e1, e2, e3)
+		}
+		if err := bc2.Commit(); err != nil {
+			rep.Fail(tb, "C10/cache/commit-fails/"+Normalize(err.Error()), err.Error(), c)
+			return
+		}
+		// killed: nothing is closed; its lock stays behind, naming a pid that is gone
+		_ = r.Repo.Close() // releases the index files a dead process would not hold; the cache files are written by RepoCache.Close only
+		DeadenLock(r.Path)
+		repo3, err := repository.OpenGoGitRepo(r.Path, "git-bug", nil)
+		if err != nil {
+			tb.Fatalf("harness: %v", err)
+		}
+		defer repo3.Close()
+		rc3, err := cache.NewRepoCacheNoEvents(repo3)
+		if err != nil {
+			rep.Fail(tb, "C10/cache/does-not-open-after-a-killed-run/"+Normalize(err.Error()), err.Error(), c)
+			return
+		}
+		defer rc3.Close()
+		stored, err := bug.Read(repo3, bc.Id())
+		if err != nil {
+			rep.Fail(tb, "C10/cache/unreadable/"+Normalize(err.Error()), err.Error(), c)
+			return
+		}
+		want := stored.Compile()
+		ex, err := rc3.Bugs().ResolveExcerpt(bc.Id())
+		if err != nil {
+			rep.Fail(tb, "C10/cache/no-excerpt-after-a-killed-run/"+Normalize(err.Error()), err.Error(), c)
+			return
+		}
+		var diffs []string
+		if ex.Title != want.Title {
+			diffs = append(diffs, fmt.Sprintf("title %q, stored operations give %q", ex.Title, want.Title))
+		}
+		if ex.Status != want.Status {
+			diffs = append(diffs, fmt.Sprintf("status %v, stored operations give %v", ex.Status, want.Status))
+		}
+		if ex.LenComments != len(want.Comments) {
+			diffs = append(diffs, fmt.Sprintf("%d comments, stored operations give %d", ex.LenComments, len(want.Comments)))
+		}
+		exLabels, wantLabels := map[string]bool{}, map[string]bool{}
+		for _, l := range ex.Labels {
+			exLabels[string(l)] = true
+		}
+		for _, l := range want.Labels {
+			wantLabels[string(l)] = true
+		}
+		if !reflect.DeepEqual(exLabels, wantLabels) {
+			diffs = append(diffs, fmt.Sprintf("labels %v, stored operations give %v", ex.Labels, want.Labels))
+		}
+		rep.Class("listed-after-a-killed-run", 1)
+		if len(diffs) > 0 {
+			rep.Fail(tb, "C10/cache/listing-after-a-killed-run-differs-from-the-stored-operations", strings.Join(diffs, "\n"), c)
 		}
 	})
 }
